@@ -17,7 +17,7 @@ func runC20(k int, rng *Rng) CaseResult {
 	clockNewCase(clockModeFor(cfg))
 	installHooks(stdHooks())
 	w := NewWorld("C20", rng, cfg, caseDir(k, "c20"))
-	w.storeWant = true
+	w.storeWant = false
 	defer w.Cleanup()
 	if !w.OpenCreate() {
 		return w.finish(nil, false, nil)
